@@ -486,6 +486,7 @@ func (node *Node) Run(ctx context.Context) error {
 		node.stopping = false
 		node.lock.Unlock()
 		node.state.Reset()
+		node.txTracker.Start() // It was stopped above. Without this txs are never re-requested again.
 	}
 
 	node.lock.Lock()
